@@ -9,8 +9,11 @@
 #include "h5snap.hpp"
 
 #include <chrono>
+#include <csignal>
 #include <cstdio>
 #include <cstdlib>
+#include <cstring>
+#include <malloc.h>
 #include <unistd.h>
 
 // non-inline so that it is emitted: lets the parent classify sanitizer reports of the code under test
@@ -32,6 +35,31 @@ Scenario* find_scenario(const std::string& id) {
 } // namespace sim
 
 using namespace sim;
+
+// ---- a crash of the code under test inside the worker itself (API mode) is an outcome, not an infrastructure failure:
+// the handler names the run that was executing and leaves with status 70; the driver confirms it in a fresh process.
+static char g_crash_line[256];          // pre-formatted: async-signal-safe to write
+static size_t g_crash_len = 0;
+static pid_t g_main_pid = 0;
+static int g_crash_replay = 0;          // 0 worker, 1 replay of a plan that expects a crash, 2 replay of another plan
+static void crash_handler(int sig) {
+    if (getpid() != g_main_pid) { signal(sig, SIG_DFL); raise(sig); return; }   // forked launch children die normally
+    char buf[320];
+    int n = snprintf(buf, sizeof buf, "%.*s,\"sig\":%d}\n", (int)g_crash_len, g_crash_line, sig);
+    if (n > 0) { ssize_t w = write(1, buf, (size_t)n); (void)w; }
+    if (g_crash_replay) {
+        const char* m = g_crash_replay == 1 ? "REPRODUCED clause=crash\n" : "NOT-REPRODUCED (the replay crashed instead)\n";
+        ssize_t w = write(1, m, strlen(m)); (void)w;
+        _exit(g_crash_replay == 1 ? 1 : 2);
+    }
+    _exit(70);
+}
+static void arm_crash_handler(const char* kind, const std::string& prop, long index, const std::string& expect) {
+    g_main_pid = getpid();
+    int n = snprintf(g_crash_line, sizeof g_crash_line, "{\"t\":\"%s\",\"prop\":\"%s\",\"index\":%ld,\"expect\":\"%s\"", kind, prop.c_str(), index, expect.c_str());
+    g_crash_len = n > 0 ? (size_t)n : 0;
+    for (int sg : {SIGSEGV, SIGBUS, SIGFPE, SIGILL, SIGABRT}) signal(sg, crash_handler);
+}
 
 static double now_s() {
     using namespace std::chrono;
@@ -123,6 +151,8 @@ static int cmd_worker(int argc, char** argv) {
         plan.seti("index", index);
         plan.set("tier", tier);
         double t0 = now_s();
+        fflush(stdout);
+        arm_crash_handler("crash", prop, index, "");
         Outcome o = run_once(sc, plan, workroot, tier, "r" + std::to_string(index));
         double wall = now_s() - t0;
         print_run_line(prop.c_str(), index, seed, o, wall);
@@ -178,6 +208,9 @@ static int cmd_replay(int argc, char** argv) {
     if (!sc) { fprintf(stderr, "unknown property '%s' in plan\n", prop.c_str()); return 2; }
     std::string workroot = argc > 3 ? argv[3] : ("/verif/work/replay-" + std::to_string(getpid()));
     make_dir(workroot);
+    fflush(stdout);
+    arm_crash_handler("replay_crash", prop, plan.geti("index"), plan.get("expect_clause"));
+    g_crash_replay = ends_with(plan.get("expect_clause"), ".crash") ? 1 : 2;
     Outcome o = run_once(sc, plan, workroot, plan.get("tier", "quick"), "replay");
     print_run_line(prop.c_str(), plan.geti("index"), plan.getu("seed"), o, 0);
     for (auto& f : o.fails) printf("FAIL clause=%s :: %s\n", f.clause.c_str(), f.detail.c_str());
@@ -221,6 +254,17 @@ static int cmd_h5info(int argc, char** argv) {
 }
 
 int main(int argc, char** argv) {
+    // Uninitialised heap memory is a source of nondeterminism the simulator has to own: with glibc's thread cache
+    // off and malloc perturbation on, every fresh allocation is filled with 0xA5 and every freed one with 0x5A, so a
+    // read of uninitialised (or freed) memory gives the same value in the worker, in its re-run and in a fresh replay
+    // process, whatever was allocated before. The tunables are read at process start: re-exec once if they are missing.
+    {
+        const char* t = getenv("GLIBC_TUNABLES");
+        if (!getenv("VERIF_NO_PERTURB") && (!t || !strstr(t, "glibc.malloc.tcache_count=0"))) {
+            setenv("GLIBC_TUNABLES", "glibc.malloc.tcache_count=0:glibc.malloc.perturb=90", 1);
+            execv("/proc/self/exe", argv);
+        }
+    }
     if (argc < 2) { fprintf(stderr, "usage: inosim worker|replay|gen|h5info|list ...\n"); return 2; }
     std::string cmd = argv[1];
     if (cmd == "worker") return cmd_worker(argc, argv);
